@@ -4812,3 +4812,60 @@ func ruleExpCanonFirst(w *World, r *Report) {
 		r.ok("EXP-CANON-FIRST", key, w.Pos(fn.Pos()), "setExpires runs before RuleFromMap on every path")
 	}
 }
+
+// CASC-LOAD (C08, C06): an expiry noticed while loading cascades like any other.
+func ruleCascLoad(prop string) ruleFn {
+	return func(w *World, r *Report) {
+		r.Rule("CASC-LOAD", "a State implementation's Load that removes a stored record directly from storage (Storage.Remove with a key built from the record's id — what IndexedState.Load does with a fact it finds expired, because nothing is in memory yet) also hands that id to the type's deleteDependencies: some call of deleteDependencies in Load takes an id that derives from the removed one (typically through a list filled in the loop and walked after it).  A bare removal leaves the facts that name the expired one in deleteWith behind — for ever, since their target is gone — whereas the same expiry noticed in a loaded location removes them", 1)
+		a := newLocAnchors(w)
+		n := 0
+		for nt := range a.stateImp {
+			load := w.TryMethod(typeRel(nt), nt.Obj().Name(), "Load")
+			dd := w.TryMethod(typeRel(nt), nt.Obj().Name(), "deleteDependencies")
+			if load == nil {
+				continue
+			}
+			var removes []ssa.Instruction
+			allInstrs(load, func(in ssa.Instruction) {
+				if d, ok := isStorageMutation(w, in); ok && strings.HasSuffix(d, "Remove") {
+					removes = append(removes, in)
+				}
+			})
+			if len(removes) == 0 {
+				continue
+			}
+			n++
+			key := "fn=" + fname(load)
+			ok := false
+			for _, rm := range removes {
+				c := callOf(rm)
+				keyArg := c.Args[len(c.Args)-1]
+				// the string the key was converted from
+				var idv ssa.Value
+				if cv, isC := keyArg.(*ssa.Convert); isC {
+					idv = cv.X
+				}
+				if idv == nil || dd == nil {
+					continue
+				}
+				allInstrs(load, func(in ssa.Instruction) {
+					cc := callOf(in)
+					if cc == nil || cc.StaticCallee() != dd || len(cc.Args) < 3 {
+						return
+					}
+					if dependsOn(cc.Args[2], func(v ssa.Value) bool { return v == idv }) {
+						ok = true
+					}
+				})
+			}
+			if ok {
+				r.ok("CASC-LOAD", key, w.PosOf(removes[0]), "the ids removed at load are handed to deleteDependencies")
+			} else {
+				r.violation("CASC-LOAD", key, w.PosOf(removes[0]), "Load removes a record from storage without cascading to the facts that name it in deleteWith")
+			}
+		}
+		if n == 0 {
+			r.info("CASC-LOAD", "none", "", "no State implementation's Load removes records from storage")
+		}
+	}
+}
